@@ -68,7 +68,8 @@ class C01(Check):
         "texel grid (pieces>=2 texels) with <=3 pieces, floor and ceil texel counts, sub-texel scaffolds present/absent, every permutation x "
         "orientation x grouping, every painted pattern; (a2) every tag assignment from 7 tags per piece on a reduced input set; (b) every "
         "single-step perturbation (drop, duplicate, shift +-1/+-E, extend past end, overlapping extra bait) of the scripts of a reduced set; "
-        "(c) every multiset of <=3 baits 1<=a<=b<=L+3 on 5 tiny inputs. Oracle: raises, or outputs partition the input contigs exactly. "
+        "(c) every multiset of <=3 baits 1<=a<=b<=L+3 on 5 tiny inputs; (d) slivers: a gap f gap b with f of 2..max(12,E+2) bases (3E thorough) painted by two baits "
+        "1..x, y..end for every x<y around f (abutting, overlapping f, or leaving any sliver in neither), 5 orientation/grouping variants, bpt {2.5,4,10}. Oracle: raises, or outputs partition the input contigs exactly. "
         "non-trivial = completed remap that cut a contig, discarded an overhang, re-added a contig, or a case that raised"
     )
     assumptions = [
@@ -104,6 +105,10 @@ class C01(Check):
             for i in range(5):
                 for variant in (0, 1):
                     out.append(("baits", bpt, i, variant, tier))
+        for bpt in (2.5, 4.0, 10.0) if tier == "quick" else (2.5, 4.0, 7.3, 10.0):
+            for ln in (9, 18, 40):
+                for g in (1, 5):
+                    out.append(("sliver", bpt, ln, g, tier))
         return out
 
     # ------------------------------------------------------------------
@@ -281,6 +286,31 @@ class C01(Check):
                         self.run_case(inp, p2, ctx, "perturbed")
         ctx.sample({"perturbed": "drop / duplicate / shift +-1,+-E,+3E / overlapping extra bait", "bpt": bpt})
 
+    def scope_sliver(self, bpt, ln, g, tier, ctx):
+        """
+        a(ln) gap f(2..3E) gap b(ln) painted by two baits 1..x and y..end for
+        every x < y around f: the two pieces abut, overlap f by any amount on
+        either side, or leave any sliver of f (or of the gaps) in neither.
+        """
+        e = err_len(bpt)
+        for f in range(2, 3 * e + 1 if tier == "thorough" else max(13, e + 3)):
+            rows = (("F", "a", 1, ln, 1), ("G", g, "scaffold"), ("F", "f", 1, f, 1), ("G", g, "scaffold"), ("F", "b", 1, ln, 1))
+            inp = (("scaffold_1", rows),)
+            fs = ln + g + 1
+            fe = fs + f - 1
+            tot = 2 * ln + 2 * g + f
+            for x in range(fs - g - 2, fe + 1):
+                for y in range(x + 1, fe + g + 3):
+                    for o1, o2, same in ((1, 1, False), (1, -1, False), (-1, 1, False), (1, 1, True), (-1, -1, True)):
+                        p1 = ("scaffold_1", 1, x, o1, ())
+                        p2 = ("scaffold_1", y, tot, o2, ())
+                        if same:
+                            sc = (("Scaffold_1", (p1, p2) if o1 == 1 else (p2, p1)),)
+                        else:
+                            sc = (("Scaffold_1", (p1,)), ("Scaffold_2", (p2,)))
+                        self.run_case(inp, (bpt, sc), ctx, "sliver")
+        ctx.sample({"sliver": "a(%d) gap(%d) f(2..) gap b: two baits 1..x, y..end for every x<y around f" % (ln, g), "bpt": bpt})
+
     def scope_baits(self, bpt, i, variant, tier, ctx):
         tiny = [
             (("s", (("F", "a", 1, 5, 1),)),),
@@ -314,6 +344,8 @@ class C01(Check):
             self.scope_baits(*shard[1:], ctx)
         elif kind == "chain":
             self.scope_chain(*shard[1:], ctx)
+        elif kind == "sliver":
+            self.scope_sliver(*shard[1:], ctx)
 
     def replay(self, case, ctx):
         kind, inp, pvspec = case
